@@ -155,7 +155,15 @@ func LemmaObligations(p *Program, u *Universe) (obls []*Obligation, err error) {
 	}()
 	for _, l := range p.Specs.Lemmas {
 		env := g.specEnv(p.Specs.ClausePkg[l])
-		t := g.evalBool(env, l.Expr, l.Src)
+		goalExpr := l.Expr
+		if l.InductVar != "" {
+			step, err := spec.InductionStep(l)
+			if err != nil {
+				return nil, err
+			}
+			goalExpr = step
+		}
+		t := g.evalBool(env, goalExpr, l.Src)
 		var b strings.Builder
 		for _, d := range g.decls {
 			b.WriteString(d + "\n")
